@@ -402,8 +402,10 @@ namespace sim
           report_violation (e, seed, hist, idbits, bad);
         finish_run (e, bad < 0);
         if (jb.digests)
-          std::printf ("DIGEST %s %llu %016llx\n", uname, static_cast<unsigned long long> (seed),
-                       static_cast<unsigned long long> (e.digest.h));
+          std::printf ("DIGEST %s %llu %016llx %llu\n", uname,
+                       static_cast<unsigned long long> (seed),
+                       static_cast<unsigned long long> (e.digest.h),
+                       static_cast<unsigned long long> (i));
         if (jb.trace_all)
           for (std::size_t k = 0; k < e.trace.size (); ++k)
             std::printf ("T %s\n", e.trace[k].c_str ());
@@ -667,6 +669,8 @@ namespace sim
       if (bad >= 0)
         report_violation (e, 0, jb.replay_ops, jb.replay_idbits, bad);
       finish_run (e, bad < 0);
+      if (jb.digests)
+        std::printf ("DIGEST %s 0 %016llx 0\n", uname, static_cast<unsigned long long> (e.digest.h));
     }
 
     void
